@@ -182,6 +182,9 @@ TraceSpec == TraceInit /\ [][TraceNext]_tvars
 IsReset == ph = 1 \/ (l <= Len(Trace) /\ Trace[l].ev = "Reset")
 T_AckedReadBack == [][IsReset \/ AckedReadBackStep]_tvars
 T_NeverForeignRead == [][IsReset \/ NeverForeignReadStep]_tvars
+\* (Trace_Store.cfg checks ViewsAgreeOnRet as a state invariant instead of T_ViewsAgree: there is no VIEW here, so every
+\* state is checked, and TLC caches LET definitions only in unprimed evaluation - the primed form re-renders every key
+\* per use and takes minutes once a backfill has put a hundred VAAs into the store.)
 T_ViewsAgree == [][IsReset \/ ViewsAgreeStep]_tvars
 T_QueriesReadOnly == [][IsReset \/ QueriesReadOnlyStep]_tvars
 T_BackfillReportsPostGaps == [][IsReset \/ BackfillReportsPostGapsStep]_tvars
